@@ -483,10 +483,10 @@ func (p *Project) WriteWeather(root string) error {
 		for y, days := range byYear {
 			var b strings.Builder
 			b.WriteString("tavg;tmin;tmax;ET0;relhumid;vapp14;wind;sundu;globrad;precip;jday\n")
-			b.WriteString("C_deg;C_deg;C_deg;mm;%;mm_Hg;m/s;hours;J cm-2 d-1;mm;\n")
+			b.WriteString("C_deg;C_deg;C_deg;mm;%;mm_Hg;m/s;hours;MJ m-2 d-1;mm;\n")
 			b.WriteString("50;2;-----;-----;-----;-----;-----;-----;------;-- -;-\n")
 			for _, d := range days {
-				fmt.Fprintf(&b, "%g;%g;%g;%s;%g;%s;%g;%s;%g;%g;%d\n", d.Tavg, d.Tmin, d.Tmax, none, d.RH, fnum(d.Verd, none), d.Wind, fnum(d.Sun, none), d.Rad*100, d.Precip, d.Date.DOY())
+				fmt.Fprintf(&b, "%g;%g;%g;%s;%g;%s;%g;%s;%g;%g;%d\n", d.Tavg, d.Tmin, d.Tmax, none, d.RH, fnum(d.Verd, none), d.Wind, fnum(d.Sun, none), d.Rad, d.Precip, d.Date.DOY())
 			}
 			if err := os.WriteFile(filepath.Join(dir, code+"."+YearExt(y)), []byte(b.String()), 0o644); err != nil {
 				return err
